@@ -393,35 +393,17 @@ func (e *Engine) sprintf(st *State, args []Value) Value {
 				return nil
 			}
 			if !t.IsConst() {
-				if os.Getenv("SYMGO_DIGITS") == "" {
+				if !exactFmt {
 					// opaque rendering (only sound where the string feeds logs / opaque ids)
 					e.modelsUsed["fmt.Sprintf(%d symbolic -> opaque)"] = true
 					out = append(out, st.fresh("dec", BV(8)))
 					continue
 				}
-				// exact decimal rendering of an unsigned value: fork on the digit count, digits by constant division
-				_, signed, _ := intWidth(arg.T)
-				if signed {
-					e.unsupported_(st, "Sprintf %d signed symbolic")
+				ds, ok := e.decimalDigits(st, t, arg.T)
+				if !ok {
 					return nil
 				}
-				w := t.sort.W
-				maxd := len(new(big.Int).Sub(new(big.Int).Lsh(big.NewInt(1), uint(w)), big.NewInt(1)).String())
-				d := 1
-				for ; d < maxd; d++ {
-					lim := new(big.Int).Exp(big.NewInt(10), big.NewInt(int64(d)), nil)
-					if e.decide(st, BVUlt(t, ConstBV(lim, w))) {
-						break
-					}
-					if st.status != Running {
-						return nil
-					}
-				}
-				for i := d - 1; i >= 0; i-- {
-					p := new(big.Int).Exp(big.NewInt(10), big.NewInt(int64(i)), nil)
-					dig := BVURem(BVUDiv(t, ConstBV(p, w)), ConstU(10, w))
-					out = append(out, BVAdd(Extract(7, 0, dig), ConstU('0', 8)))
-				}
+				out = append(out, ds...)
 				continue
 			}
 			_, signed, _ := intWidth(arg.T)
@@ -730,4 +712,67 @@ func init() {
 		sl := st.newByteSlice(ts) // element terms are 64-bit; only read through sliceGet
 		return exact["zzverif.Len"](e, st, fn, []Value{args[0], sl}, retTo)
 	}
+}
+
+var exactFmt = os.Getenv("SYMGO_DIGITS") != ""
+
+// decimalDigits renders an unsigned symbolic integer exactly: the digit count is a fork (instruction re-executed in
+// the clones), the digits are fresh variables d_i in 0..9 tied to the value by value = sum d_i*10^i (no division; the
+// decomposition is unique, so the variables are named after the term and shared by every rendering of it).
+func (e *Engine) decimalDigits(st *State, t *Term, typ types.Type) ([]*Term, bool) {
+	if _, signed, _ := intWidth(typ); signed {
+		e.unsupported_(st, "Sprintf %d signed symbolic")
+		return nil, false
+	}
+	e.modelsUsed["fmt %d exact decimal rendering (digit variables)"] = true
+	w := t.sort.W
+	maxd := len(new(big.Int).Sub(new(big.Int).Lsh(big.NewInt(1), uint(w)), big.NewInt(1)).String())
+	d := 1
+	for ; d < maxd; d++ {
+		lim := new(big.Int).Exp(big.NewInt(10), big.NewInt(int64(d)), nil)
+		if e.decide(st, BVUlt(t, ConstBV(lim, w))) {
+			break
+		}
+		if st.status != Running {
+			return nil, false
+		}
+	}
+	ww := w + 4
+	sum := ConstU(0, ww)
+	out := make([]*Term, d)
+	for i := 0; i < d; i++ { // i = power of ten
+		dv := Var(fmt.Sprintf("dig%d.%d", t.id, i), BV(8))
+		st.assumeOnce(BVUle(dv, ConstU(9, 8)))
+		p := new(big.Int).Exp(big.NewInt(10), big.NewInt(int64(i)), nil)
+		sum = BVAdd(sum, BVMul(ZeroExt(dv, ww), ConstBV(p, ww)))
+		out[d-1-i] = BVAdd(dv, ConstU('0', 8))
+	}
+	st.assumeOnce(Eq(sum, ZeroExt(t, ww)))
+	// uniqueness of the decimal representation, stated explicitly between every two rendered values with the same
+	// digit count (a theorem of arithmetic given the constraints above; it spares the solver the multiplications)
+	digs := make([]*Term, d)
+	for i := 0; i < d; i++ {
+		digs[i] = Var(fmt.Sprintf("dig%d.%d", t.id, i), BV(8))
+	}
+	for _, r := range st.decs {
+		if r.t == t || len(r.digits) != d || r.t.sort != t.sort {
+			continue
+		}
+		all := True
+		for i := 0; i < d; i++ {
+			all = And(all, Eq(digs[i], r.digits[i]))
+		}
+		eqv := Eq(t, r.t)
+		st.assumeOnce(And(Or(Not(eqv), all), Or(eqv, Not(all))))
+	}
+	known := false
+	for _, r := range st.decs {
+		if r.t == t && len(r.digits) == d {
+			known = true
+		}
+	}
+	if !known {
+		st.decs = append(st.decs, decRec{t, digs})
+	}
+	return out, true
 }
